@@ -25,6 +25,8 @@ fn target_strategy_unvalidated() -> BoxedStrategy<Target> {
         5 => (0u8..4).prop_map(Target::MiniFatCell),
         3 => proptest::sample::select(vec![3u8, 4, 9, 9, 2]).prop_map(Target::Cycle),
         1 => (0u8..5, 0u8..17).prop_map(|(class, field)| Target::Entry { class, field }),
+        // header counters that permissive open does not check (num dir / fat / minifat / difat, txn)
+        2 => proptest::sample::select(vec![6u8, 7, 12, 14, 9]).prop_map(Target::Header),
         // file length: trailing garbage / zero sectors, truncated tail
         2 => Just(Target::Extend),
         1 => Just(Target::Truncate),
